@@ -524,6 +524,7 @@ class World:
                 results=[dict(bus=r.eventbus_name, h=r.handler_name.rsplit('.', 1)[-1], status=r.status,
                               value=repr(r.result)[:40] if not isinstance(r.result, BaseEvent) else 'ev:' + self.name_of(r.result),
                               err=self.exc_name(r.error), errtype=type(r.error).__name__ if r.error is not None else None,
+                              started_v=seams.VDatetime.vtime_of(r.started_at), completed_v=seams.VDatetime.vtime_of(r.completed_at),
                               children=[self.name_of(c) for c in r.event_children]) for r in e.event_results.values()])
         buses = {}
         for bn, b in self.buses.items():
